@@ -366,6 +366,7 @@ class Gen:
         self.nodes = 0
         self.optional_set = 0
         self.shape: Optional[str] = None  # 'min' | 'max' forces the shape of every object generated while set
+        self.solo: Optional[str] = None   # next object: required properties plus exactly this optional one
 
     # -- entry points ---------------------------------------------------------------
     def root(self, root: tuple) -> TV:
@@ -403,6 +404,11 @@ class Gen:
         props = self.o.props(key)
         optional = [p for p in props if p.get("optional")]
         chosen: Set[str] = set()
+        if self.solo is not None:
+            solo, self.solo = self.solo, None
+            optional_names = {p["name"] for p in optional}
+            chosen = {solo} & optional_names
+            optional = []
         if optional:
             if mode == "max" and not self._saturated(depth):
                 chosen = {p["name"] for p in optional}
